@@ -58,8 +58,9 @@ theorem deliver_at_most_once (sr : Msg → Bool) (env : Env) (c : Conn) (m : Msg
 /-! ## 2. how the expected number moves -/
 
 /-- After one frame the expected number is unchanged, or one higher (then the frame is not a
-SequenceReset and carried exactly the expected number), or the NewSeqNo of an honoured SequenceReset,
-or – `BrokenResetTo` – the own MsgSeqNum of a Reset-mode SequenceReset without a usable NewSeqNo. -/
+SequenceReset and carried exactly the expected number), or the NewSeqNo of an honoured SequenceReset
+(`HonouredTo`: Reset mode – any NewSeqNo, also a lower one; GapFill mode – only when the GapFill's own
+MsgSeqNum is the expected number and NewSeqNo is beyond it). -/
 theorem nextIn_moves (sr : Msg → Bool) (env : Env) (c : Conn) (m : Msg) :
     Moves c m (recv sr env c m).1.sess.nextIn :=
   (recv_msgOk sr env c m).2
@@ -82,12 +83,11 @@ theorem gapfill_moves (sr : Msg → Bool) (env : Env) (c : Conn) (m : Msg)
     (recv sr env c m).1.sess.nextIn = c.sess.nextIn ∨
     (seqOf m = some c.sess.nextIn ∧ newSeqOf m = some (recv sr env c m).1.sess.nextIn ∧
       c.sess.nextIn < (recv sr env c m).1.sess.nextIn) := by
-  rcases nextIn_moves sr env c m with h | ⟨h, -⟩ | ⟨-, n, hn, hk, hgf⟩ | ⟨-, h, -⟩
+  rcases nextIn_moves sr env c m with h | ⟨h, -⟩ | ⟨-, n, hn, hk, hgf⟩
   · exact Or.inl h
   · exact absurd hm h
   · obtain ⟨rfl, hlt⟩ := hgf hg
     exact Or.inr ⟨hn, hk, hlt⟩
-  · rw [hg] at h; cases h
 
 /-! ## 3. a number above the expectation -/
 
